@@ -166,6 +166,13 @@ class Tracker:
                 "expunge", "expunge_all", "close", "commit"):
             op = "rollback"
         mech = f"{mech}:in-{op}"
+        if mech == "persistent_to_detached-fired-by-commit:in-commit" and any(
+                (o_[0] if isinstance(o_, (list, tuple)) else o_) in ("begin_nested", "begin_nested_noaf")
+                for o_ in (self.desc.get("ops") or ())):
+            # the stale transaction-snapshot entry was made inside a SAVEPOINT (delete + flush in
+            # begin_nested(), the object leaves in the deleted state and comes back): a separate,
+            # registered mechanism
+            mech += ":delete-was-in-savepoint"
         w = dict(self.desc)
         w["ops"] = list(self.desc["ops"])
         w.update(kw)
